@@ -38,7 +38,7 @@ def case_strategy(draw, maxdepth, odd=False, namings=("distinct", "distinct", "s
     naming = draw(st.sampled_from(namings))
     cfg = typed.Cfg(naming=naming, odd_selectors=odd, method_form=draw(st.sampled_from([0.0, 0.2, 0.5])))
     cx = typed.Ctx(draw, cfg)
-    env = [("ds", typed.S(typed.EVT))]
+    env = [("ds", typed.S(typed.EVT)), ("k0", typed.I)]  # k0: a free scalar variable of the query (bound by the evaluation environment)
     depth = draw(st.integers(2, maxdepth))
     k = draw(st.integers(0, 16))
     if k >= 14:
@@ -162,7 +162,7 @@ def semantic_check(case, r: Result, allow_index_error=False, total=False):
     from func_adl.ast.function_simplifier import FuncADLIndexError, simplify_chained_calls
 
     tree = ast.parse(case["src"], mode="eval").body
-    env = {"ds": schema.build(case["data"])}
+    env = {"ds": schema.build(case["data"]), "k0": 1}
     try:
         expect = pyeval.materialise(pyeval.evaluate(tree, env, total))
     except RecursionError:
@@ -206,7 +206,7 @@ def compare_values(case, r: Result, tree, out, expect, total=False):
         return r.fail(f"unbound name(s) {sorted(extra)} introduced: {case['src']}  ==>  {unp(out)}")
     if expect is None:
         return r
-    env = {"ds": schema.build(case["data"])}
+    env = {"ds": schema.build(case["data"]), "k0": 1}
     try:
         got = pyeval.materialise(pyeval.evaluate(out, env, total))
     except Exception as e:
